@@ -459,3 +459,39 @@ package gogen
 //@ prop C10
 //@ requires l != nil && p.pkg != nil
 //@ ensures l.used
+
+// ---------------------------------------------------------------------------
+// codebuild.go — calls: stack arity (C16) and panic-call tracking (C10)
+
+//@ func getSrc
+//@ prop C16
+//@ readonly
+//@ requires imp(node != nil, len(node) >= 1)
+//@ ensures result == ite(node != nil, node[0], nil)
+
+//@ func (*CodeBuilder).Scope
+//@ prop C16
+//@ readonly
+//@ ensures result == p.current.scope
+
+// matchFuncCall is the 250-line overload/generic matcher: its effect on the builder state is ASSUMED here
+// (it only rewrites argument elements and balances every push it makes); what it returns is constrained elsewhere.
+//@ func matchFuncCall
+//@ trusted
+//@ requires pkg != nil && fn != nil
+//@ assigns all(internal.Elem.Val), all(internal.Elem.Type), all(internal.Elem.CVal), all(internal.Elem.Src)
+//@ ensures imp(result1 == nil, result0 != nil && fresh(result0))
+//@ ensures (result1 == nil) == (result0 != nil)
+
+//@ func (*CodeBuilder).CallWithEx
+//@ prop C16 C10
+//@ requires p.pkg != nil && p.current.scope != nil && n >= 0 && len(p.stk.data) >= n + 1
+//@ requires forall(i, 0, len(p.stk.data), p.stk.data[i] != nil)
+//@ requires !typeis(p.stk.data[len(p.stk.data)-n-1].Type, *btiMethodType)
+//@ requires imp(src != nil, len(src) >= 1)
+//@ ensures len(p.stk.data) == old(len(p.stk.data)) - n
+//@ ensures forall(i, 0, len(p.stk.data) - 1, p.stk.data[i] == old(p.stk.data[i]))
+//@ ensures imp(result != nil, p.stk.data[len(p.stk.data)-1] == old(p.stk.data[len(p.stk.data)-n-1]) && p.current.panicCalls == old(p.current.panicCalls))
+//@ ensures imp(result == nil, fresh(p.stk.data[len(p.stk.data)-1]))
+//@ ensures imp(result == nil && IsBuiltinPanicCall(p, p.stk.data[len(p.stk.data)-1].Val), in(p.current.panicCalls, p.stk.data[len(p.stk.data)-1].Val.(*ast.CallExpr)))
+//@ ensures imp(result == nil && !IsBuiltinPanicCall(p, p.stk.data[len(p.stk.data)-1].Val), p.current.panicCalls == old(p.current.panicCalls) && imp(p.current.panicCalls != nil, forall(i, 0, 1, true)))
